@@ -5,7 +5,7 @@
 import YaraModel.Lemmas.ReAlgebra
 import YaraModel.Lemmas.ReVm
 import YaraModel.Lemmas.ReEmit
-import YaraModel.Lemmas.ReAtoms
+import YaraModel.Lemmas.ReAtomPos
 namespace YaraModel.C03
 open YaraModel.Re
 
@@ -184,22 +184,24 @@ example : WF (.cat .wordB (.cat (.lit 97) (.cat (.star (.alt (.lit 98) .empty) t
   .cat .wordB (.cat (.lit _) (.cat (.star _ (.alt (.lit _) .empty)) (.cat (.plus _ (.lit _)) .nonWordB)))
 
 open YaraModel.ReAtoms in
-/-- `reAtoms_cover_partial`: the atoms extracted for a hex string / regular expression cover its matches.  `chosen q r` is the
-    model of `_yr_atoms_extract_from_re` + `_yr_atoms_choose` (the walk over the expression with the sliding 4-node window
-    and `_yr_atoms_trim`, the tree of OR / AND / leaf nodes, the choice by quality) for an ARBITRARY quality function `q` —
-    i.e. for every window and every OR child the heuristic could pick.  For ALL expressions (every node kind: runs through
-    groups, `+` bodies and the first copies of counted repeats; alternations; anything else ends a run), ALL buffers, in byte
-    mode without nocase: every match [p, q') of the expression contains an occurrence of one of the chosen masked atoms
-    (every node of the atom: byte & mask = value) — unless nothing was chosen, and then parser.c gives the string the
-    zero-length atom that is a candidate at every offset.  The model with the quality function of atoms.c is compared with
-    the atoms the real compiler inserts (hook H3) and with the code positions of their automaton entries on every
-    generated non-literal unchained string.
-    Full statement aimed at (not yet proved): the same after `_yr_atoms_expand_wildcards`, for the case variants of nocase
-    strings and the widened atoms of wide strings, and with the POSITION — the atom occurs where the backward code, run
-    from the atom's code position, reaches p (at specification level: `decompose`). -/
-theorem reAtoms_cover_partial (q : Atom → Int) (fl : Flags) (hw : fl.wide = false) (hn : fl.nocase = false) (buf : Bytes) (r : Re)
-    (p q' : Nat) (hm : Re.Matches fl buf r p q') : chosen q r = [] ∨ ∃ a ∈ chosen q r, Occurs buf a p q' :=
-  chosen_cover q hw hn r hm
+/-- `reAtoms_cover`: the atoms extracted for a regular expression / hex string cover its matches.  `atomsOf q m r` is the
+    model of what `yr_ac_add_string` receives (`yr_atoms_extract_from_re`: the walk over the expression with the sliding
+    4-node window and `_yr_atoms_trim`, the tree of OR / AND / leaf nodes, `_yr_atoms_choose`, then
+    `_yr_atoms_expand_wildcards`, `_yr_atoms_wide`, `_yr_atoms_case_insensitive`, or the zero-length atom) for an ARBITRARY
+    quality function `q` — every window and every OR child the heuristic could pick — and modifiers `m`.  For ALL
+    expressions whose masked nodes have the masks the grammars produce (every node kind: runs through groups, `+` bodies and
+    the first copies of counted repeats; alternations), ALL buffers, byte or wide matching, with or without nocase (as the
+    modifiers allow): along every match [p, q') one of these byte sequences occurs LITERALLY in the buffer inside [p, q'),
+    at a position where the match (its trace `T`) has the node the atom begins at — or the string has the zero-length atom
+    that is a candidate at every offset.  The model with the quality function of atoms.c is compared with the atoms the
+    real compiler inserts (hook H3) and with the code positions of their automaton entries on every generated non-literal
+    unchained string.  For loop-free expressions (hex strings) Thm/C02 `reAtoms_cover` adds the position statement. -/
+theorem reAtoms_cover (q : Atom → Int) (m : Mods) (fl : Flags) (buf : Bytes) (hw1 : fl.wide = true → m.wide = true)
+    (hw0 : fl.wide = false → (m.wide = false ∨ m.ascii = true)) (hn : m.nocase = fl.nocase) (r : Re) (hmk : MaskOK r)
+    (p q' : Nat) (hm : Re.Matches fl buf r p q') :
+    ∃ T, Tr fl buf r 0 p q' T ∧ ∃ x ∈ atomsOf q m r, ∃ s, p ≤ s ∧ s + x.1.length ≤ q' ∧ BytesAt buf x.1 s ∧ (x.1 = [] ∨ (x.2, s) ∈ T) := by
+  obtain ⟨T, hT⟩ := tr_of_matches hm 0
+  exact ⟨T, hT, atomsOf_cover q m fl buf hw1 hw0 hn r hmk hT⟩
 
 open YaraModel.ReAtoms in
 /-- instance: `10 ?? 41 42 43 ?? 20 30` — the heuristic of atoms.c picks the interior window `41 42 43` (leaf 2) -/
